@@ -92,3 +92,46 @@ Proof.
   intro H. pose proof (jinvT_is_inverse x0 x1 x2 H) as I. pose proof (jinvT_tangential x0 x1 x2 H) as T.
   cbn zeta in *. destruct I as (I1 & I2 & I3 & I4), T as (T1 & T2). repeat split; assumption.
 Qed.
+
+(* ---- the sqrt step, as far as it can be said without sqrt -----------------------------------------------------
+   Whatever number s the library computes for |n| (normal_direction_norms): if s^2 = |n|^2 and s <> 0 then
+   normals = n / s is a unit vector orthogonal to both edges, right-handed when s > 0, and volumes = s/2,
+   integration_elements = s satisfy their defining equations; diameters^2 |n|^2 = |a|^2 |b|^2 |a-b|^2. *)
+Lemma dot_veq_l u v w : veq u v -> dot u w == dot v w.
+Proof. intros (a & b & c). unfold dot. rewrite a, b, c. reflexivity. Qed.
+Lemma dot_vscale_l s u w : dot (vscale s u) w == s * dot u w.
+Proof. unfold dot, vscale, vx, vy, vz. cbn [fst snd]. ring. Qed.
+Lemma dot_comm u w : dot u w == dot w u.
+Proof. unfold dot. ring. Qed.
+
+Theorem unit_normal_characterisation x0 x1 x2 (nrm : vec) (s : Q) :
+  s * s == cross_sq x0 x1 x2 -> ~ s == 0 -> veq (vscale s nrm) (normal_dir x0 x1 x2) ->
+  dot nrm nrm == 1 /\ dot nrm (jac_a x0 x1 x2) == 0 /\ dot nrm (jac_b x0 x1 x2) == 0 /\
+  det3 (jac_a x0 x1 x2) (jac_b x0 x1 x2) nrm == s /\
+  dot nrm nrm * ((2 * (s / 2)) * (2 * (s / 2))) == cross_sq x0 x1 x2 /\
+  s * s == gram_det x0 x1 x2.
+Proof.
+  intros Hs Hn Hv. set (N := normal_dir x0 x1 x2) in *.
+  assert (K : forall w, s * dot nrm w == dot N w).
+  { intro w. rewrite <- dot_vscale_l. apply dot_veq_l. exact Hv. }
+  assert (U1 : dot nrm nrm == 1).
+  { assert (E : s * (s * dot nrm nrm) == s * (s * 1)).
+    { rewrite K. rewrite (dot_comm N nrm), K. change (dot N N) with (cross_sq x0 x1 x2). rewrite <- Hs. ring. }
+    apply Qmult_inj_l in E; [|exact Hn]. apply Qmult_inj_l in E; [exact E|exact Hn]. }
+  destruct (normal_orthogonal x0 x1 x2) as [Oa Ob]. fold N in Oa, Ob.
+  assert (Sa : s * dot nrm (jac_a x0 x1 x2) == 0) by (rewrite K; exact Oa).
+  assert (Sb : s * dot nrm (jac_b x0 x1 x2) == 0) by (rewrite K; exact Ob).
+  split; [exact U1|]. split; [apply Qmult_integral in Sa; tauto|]. split; [apply Qmult_integral in Sb; tauto|].
+  split; [|split].
+  - assert (E : s * det3 (jac_a x0 x1 x2) (jac_b x0 x1 x2) nrm == s * s).
+    { unfold det3. change (cross (jac_a x0 x1 x2) (jac_b x0 x1 x2)) with N. rewrite (dot_comm N nrm), K.
+      change (dot N N) with (cross_sq x0 x1 x2). rewrite Hs. reflexivity. }
+    apply Qmult_inj_l in E; assumption.
+  - rewrite U1, <- Hs. field.
+  - rewrite Hs. apply cross_sq_is_gram_det.
+Qed.
+
+Theorem diameter_sq_spec x0 x1 x2 : ~ cross_sq x0 x1 x2 == 0 ->
+  let a := jac_a x0 x1 x2 in let b := jac_b x0 x1 x2 in
+  diameter_sq x0 x1 x2 * cross_sq x0 x1 x2 == dot a a * dot b b * dot (vsub a b) (vsub a b).
+Proof. intros H. cbn zeta. unfold diameter_sq. field. exact H. Qed.
